@@ -15,7 +15,8 @@ VARIABLES
   payload,  \* payload of the last commit
   wopen,    \* a writer object exists
   wCreated, \* opstamp at which the current writer was created (stale commit_opstamp, F-A)
-  dirty,    \* operations were issued since the last commit / rollback / writer creation
+  dirty,    \* operations issued since the last commit / rollback / writer creation: [on, adds (plain adds),
+            \* other (anything else), flushed (all of them are known to sit in uncommitted segments)]
   sorted,   \* "" | "v_asc" | "v_desc" (configuration of the run)
   kf,       \* a recorded finding was triggered in this run (content checks suspended)
   calling   \* a commit call is in progress (between its `call` event and its result)
@@ -58,14 +59,18 @@ WriterLockFree(locks) == ".tantivy-writer.lock" \notin SeqToSet(locks)
 
 Known(tag) == PrintT(<<"KF", tag, l>>)
 
+Clean == [on |-> FALSE, adds |-> 0, other |-> FALSE, flushed |-> FALSE]
+AfterAdd(d) == [on |-> TRUE, adds |-> d.adds + 1, other |-> d.other, flushed |-> FALSE]
+AfterOther(d) == [on |-> TRUE, adds |-> d.adds, other |-> TRUE, flushed |-> FALSE]
+
 TReset ==
   /\ Ev.ev = "reset"
   /\ pend' = {} /\ commd' = {} /\ lo' = 0 /\ metaop' = 0 /\ payload' = "null" /\ wopen' = FALSE
-  /\ wCreated' = 0 /\ dirty' = FALSE /\ sorted' = Ev.cfg.sorted /\ kf' = FALSE
+  /\ wCreated' = 0 /\ dirty' = Clean /\ sorted' = Ev.cfg.sorted /\ kf' = FALSE
 
 TNewWriter ==
   /\ Ev.ev = "new_writer"
-  /\ IF Ev.ok THEN ~wopen /\ wopen' = TRUE /\ lo' = metaop /\ wCreated' = metaop /\ pend' = commd /\ dirty' = FALSE
+  /\ IF Ev.ok THEN ~wopen /\ wopen' = TRUE /\ lo' = metaop /\ wCreated' = metaop /\ pend' = commd /\ dirty' = Clean
                    \* a new writer starts from the opstamp of the last commit
                    /\ ("commit_opstamp" \in DOMAIN Ev => Ev.commit_opstamp = metaop)
      ELSE wopen /\ UNCHANGED <<wopen, lo, wCreated, pend, dirty>>   \* C18: fails iff one exists
@@ -75,28 +80,28 @@ TDropWriter ==
   /\ Ev.ev = "drop_writer"
   /\ Ev.ok = wopen
   /\ WriterLockFree(Ev.locks)                       \* C18: the lock is released with the writer
-  /\ wopen' = FALSE /\ pend' = commd /\ dirty' = FALSE
+  /\ wopen' = FALSE /\ pend' = commd /\ dirty' = Clean
   /\ UNCHANGED <<commd, lo, metaop, payload, wCreated, sorted, kf>>
 
 TAdd ==
   /\ Ev.ev = "add" /\ Ev.ok /\ wopen
   /\ Ev.opstamp >= lo /\ lo' = Ev.opstamp + 1
   /\ pend' = OAdd(pend, [id |-> Ev.id, t |-> Ev.t, v |-> Ev.v])
-  /\ dirty' = TRUE
+  /\ dirty' = AfterAdd(dirty)
   /\ UNCHANGED <<commd, metaop, payload, wopen, wCreated, sorted, kf>>
 
 TDel ==
   /\ Ev.ev = "del" /\ Ev.ok /\ wopen
   /\ Ev.opstamp >= lo /\ lo' = Ev.opstamp + 1
   /\ pend' = ODel(pend, Ev.pred)
-  /\ dirty' = TRUE
+  /\ dirty' = AfterOther(dirty)
   /\ UNCHANGED <<commd, metaop, payload, wopen, wCreated, sorted, kf>>
 
 TRun ==
   /\ Ev.ev = "run" /\ Ev.ok /\ wopen
   /\ Ev.opstamp >= lo + Len(Ev.ops) /\ lo' = Ev.opstamp + 1
   /\ pend' = ORun(pend, Ev.ops)
-  /\ dirty' = TRUE
+  /\ dirty' = AfterOther(dirty)
   /\ UNCHANGED <<commd, metaop, payload, wopen, wCreated, sorted, kf>>
 
 \* delete_all_documents mirrors the code: the stamper is reverted to the (stale) opstamp of
@@ -105,8 +110,10 @@ TDeleteAll ==
   /\ Ev.ev = "delete_all" /\ Ev.ok /\ wopen
   /\ Ev.opstamp = wCreated /\ lo' = wCreated
   /\ pend' = {}
-  /\ kf' = (kf \/ (IF dirty THEN Known("F-B/F-C delete_all with pending operations") ELSE FALSE))
-  /\ dirty' = TRUE
+  \* (when the only pending operations are plain adds and the hook state has shown that all of them sit
+  \* in uncommitted segments, the outcome is determined: delete_all clears that register)
+  /\ kf' = (kf \/ (IF dirty.on /\ ~dirty.flushed THEN Known("F-B/F-C delete_all with pending operations") ELSE FALSE))
+  /\ dirty' = AfterOther(Clean)
   /\ UNCHANGED <<commd, metaop, payload, wopen, wCreated, sorted>>
 
 TCommit ==
@@ -124,7 +131,7 @@ TCommit ==
   /\ ("writer_commit_opstamp" \in DOMAIN Ev =>
         IF Ev.writer_commit_opstamp = Ev.opstamp THEN TRUE
         ELSE Ev.writer_commit_opstamp = wCreated /\ Known("F-A commit_opstamp() is stale"))
-  /\ dirty' = FALSE
+  /\ dirty' = Clean
   /\ UNCHANGED <<pend, wopen, wCreated, sorted, kf>>
 
 \* rollback() and PreparedCommit::abort(): precisely the last committed state
@@ -132,7 +139,7 @@ TRollback ==
   /\ Ev.ev \in {"rollback", "prepare_abort"} /\ Ev.ok /\ wopen
   /\ Ev.opstamp = metaop
   /\ ObsIs(Ev.obs, commd) /\ Ev.obs.payload = payload
-  /\ pend' = commd /\ lo' = metaop /\ wCreated' = metaop /\ dirty' = FALSE
+  /\ pend' = commd /\ lo' = metaop /\ wCreated' = metaop /\ dirty' = Clean
   /\ UNCHANGED <<commd, metaop, payload, wopen, sorted, kf>>
 
 \* an explicit merge, waited for: never changes the content (C04); it may be refused
@@ -146,7 +153,7 @@ TWaitMerges ==
   /\ Ev.ev = "wait_merges" /\ Ev.ok /\ wopen
   /\ ObsIs(Ev.obs, commd) /\ Ev.obs.payload = payload
   /\ WriterLockFree(Ev.locks)
-  /\ wopen' = FALSE /\ pend' = commd /\ dirty' = FALSE
+  /\ wopen' = FALSE /\ pend' = commd /\ dirty' = Clean
   /\ UNCHANGED <<commd, lo, metaop, payload, wCreated, sorted, kf>>
 
 TGc ==
@@ -177,9 +184,12 @@ TMergeUncommitted ==
   /\ Ev.ev = "merge_uncommitted" /\ wopen
   /\ UNCHANGED <<pend, commd, lo, metaop, payload, wopen, wCreated, dirty, sorted, kf>>
 
+\* the harness waited until the hook state showed n uncommitted segments holding `docs` documents
 TWaitUncommitted ==
   /\ Ev.ev = "wait_uncommitted"
-  /\ UNCHANGED <<pend, commd, lo, metaop, payload, wopen, wCreated, dirty, sorted, kf>>
+  /\ dirty' = IF Ev.ok /\ "docs" \in DOMAIN Ev /\ dirty.on /\ ~dirty.other /\ Ev.docs = dirty.adds
+              THEN [dirty EXCEPT !.flushed = TRUE] ELSE dirty
+  /\ UNCHANGED <<pend, commd, lo, metaop, payload, wopen, wCreated, sorted, kf>>
 
 TCall ==
   /\ Ev.ev = "call"
@@ -215,7 +225,7 @@ TNext ==
                   [] OTHER -> calling
 
 TInit == /\ l = 1 /\ pend = {} /\ commd = {} /\ lo = 0 /\ metaop = 0 /\ payload = "null"
-         /\ wopen = FALSE /\ wCreated = 0 /\ dirty = FALSE /\ sorted = "" /\ kf = FALSE /\ calling = FALSE
+         /\ wopen = FALSE /\ wCreated = 0 /\ dirty = Clean /\ sorted = "" /\ kf = FALSE /\ calling = FALSE
 TSpec == TInit /\ [][TNext]_vars
 
 Accepted ==
